@@ -28,9 +28,10 @@ GRIDS = {
     'utc': dict(T=4, freq='h', tz='UTC'),
     'q15': dict(T=8, freq='15min', tz=None),
     'short': dict(T=2, freq='h', tz=None),
+    'dunit': dict(T=4, freq='h', tz=None, unit='d'),      # same instants, main time unit 'd' (rates per day, durations in days)
 }
-OPS = ['h', 'cet', 'utc', 'q15', 'short', 'same', 'split', 'costs']
-FINALS = ['h', 'cet', 'q15', 'short', 'utc']
+OPS = ['h', 'cet', 'utc', 'q15', 'short', 'dunit', 'same', 'split', 'costs']
+FINALS = ['h', 'cet', 'q15', 'short', 'utc', 'dunit']
 PORTFOLIOS = ['dicts', 'wrappers', 'orderbook', 'classes']
 NAIVE_ONLY = {'orderbook', 'classes'}      # order dates are naive: EAO compares them with the grid points as they are
 
@@ -56,7 +57,7 @@ def cases(tier, seed):
 BOUNDS = dict(quick='portfolios %s; histories of length <= 1 over %s, finals %s (exhaustive)' % (PORTFOLIOS, OPS, FINALS),
               thorough='histories of length <= 2 (exhaustive: %d per portfolio and final)' % (1 + len(OPS) + len(OPS) ** 2))
 OUTSIDE = ['optimise / serialise steps inside a history (they do not touch set-up state; serialisation after set-up is C11)',
-           'histories longer than the bound', 'grids other than the five listed']
+           'histories longer than the bound', 'grids other than the six listed']
 
 
 # ------------------------------------------------------------------------------------------------ objects
@@ -64,7 +65,7 @@ def mk_grid(key):
     g = GRIDS[key]
     eao = lift.import_eao()
     step = pd.Timedelta(g['freq']) if any(ch.isdigit() for ch in g['freq']) else pd.Timedelta(1, g['freq'])
-    return eao.assets.Timegrid(shapes.T0, (pd.Timestamp(shapes.T0) + g['T'] * step).to_pydatetime(), freq=g['freq'], timezone=g['tz'])
+    return eao.assets.Timegrid(shapes.T0, (pd.Timestamp(shapes.T0) + g['T'] * step).to_pydatetime(), freq=g['freq'], timezone=g['tz'], main_time_unit=g.get('unit', 'h'))
 
 
 def mk_prices(D, key):
@@ -93,7 +94,8 @@ def mk_portfolio(D, kind):
         # on the shared grid (restricted grid, discount factors) would show in the next one
         nG = shapes.nodes('G')[0]
         tgh = mk_grid('h')
-        pl = shapes.mk_plant(D, 'pl', [nA, nG], 0, price='p', fuel=True, heat=False, mr=2, ramp=True, tg=tgh)
+        pl = shapes.mk_plant(D, 'pl', [nA, nG], 0, price='p', fuel=True, heat=False, mr=2, ramp=True, tg=tgh, sym_cap=False,
+                             start_ramp=((0.25, 0.5), (0.5, 1.0)), shutdown_ramp=((0.5,), (0.75,)))
         pl.start, pl.end, pl.wacc = h(1), h(4), D('wacc_pl', lo=0)
         mc = eao.assets.MultiCommodityContract(name='mc', nodes=[nA, nB], price='q', min_cap=D('mc_min', hi=0), max_cap=D('mc_max', lo=0),
                                                factors_commodities=[1.0, 0.5], start=h(0), end=h(3), wacc=D('wacc_mc', lo=0))
